@@ -64,7 +64,7 @@ def corpus():
 docref = st.one_of(st.integers(0, len(STATEFUL) - 1).map(lambda i: ['s', i]), st.integers(0, len(STATEFUL) - 1).map(lambda i: ['s', i]),
                    st.integers(0, 200).map(lambda i: ['c', i]), gdoc.document(CFG).map(lambda d: ['g', d]), st.just(['m', 0]), st.just(['o', 0]))
 step = st.fixed_dictionaries({'doc': docref, 'fmt': st.sampled_from(FMTS), 'ext': st.sampled_from(EXTS), 'lang': st.integers(0, 6),
-                              'api': st.sampled_from(['s', 'd', 'sd', 'dd', 'e', 'ed', 'E', 'E', 'Esrc', 'Emeta', 'Eexp', 'Eexp', 'Equery', 'Esub'])})
+                              'api': st.sampled_from(['s', 'd', 'sd', 'dd', 'e', 'ed', 'E', 'E', 'Esrc', 'Emeta', 'Eexp', 'Eexp', 'Equery', 'Esub', 'Esame'])})
 
 
 def _session(case):
@@ -88,10 +88,13 @@ def _session(case):
         return dict(case, steps=steps, outer_pool=True)
     ext = case['steps'][0]['ext'] & ~RANDOMS
     steps = []
+    keep_lang = case['steps'][0]['lang'] % 2 == 0        # half of the sessions never call mmd_engine_set_language() again after the first step
     for s in case['steps']:
         s = dict(s, ext=ext)
+        if keep_lang:
+            s['lang'] = case['steps'][0]['lang']
         if not s['api'].startswith('E'):
-            s['api'] = ('E', 'Esrc', 'Emeta', 'Eexp', 'Equery', 'Esub')[len(steps) % 6]
+            s['api'] = ('E', 'Esrc', 'Emeta', 'Eexp', 'Equery', 'Esub', 'Esame')[len(steps) % 7]
         if s['doc'][0] == 'o':
             s['doc'] = ['s', 0]
         steps.append(s)
@@ -192,6 +195,16 @@ def check(case, ctx):
                 if engine[3] != lang:
                     w.call('elang', engine[0], lang)
                     engine[3] = lang
+                if api == 'Esame' and s['doc'][0] != 'o':
+                    # the caller edits the engine's text in place and keeps its LENGTH (markup characters swapped for plain ones): the tree the
+                    # engine built for the old bytes says nothing about the new ones
+                    t2 = text.replace('*', "'").replace('`', '"').replace('# ', '1 ').replace('[', '(').replace(']', ')')
+                    if t2 != text and len(t2.encode('utf-8', 'surrogateescape')) == len(text.encode('utf-8', 'surrogateescape')):
+                        w.call('econv', engine[0], 'e', FMT['html'], FIX)
+                        w.call('esrc', engine[0], t2)
+                        engine[2] = text = t2
+                        engine[4:] = []
+                        ctx.cls('same_length_in_place_edit')
                 if api in ('Emeta', 'Equery'):
                     w.call('ehas', engine[0])
                     w.call('ekeys', engine[0])
